@@ -164,11 +164,13 @@ class Verdict:
             "wall_s": round(wall, 2),
             "violations": len(self.violations),
         }
-        ensure_dir(EVID)
-        tmp = os.path.join(EVID, f"{self.prop}.json.tmp")
+        import common as _c
+        evid = _c.EVID
+        ensure_dir(evid)
+        tmp = os.path.join(evid, f"{self.prop}.json.tmp")
         with open(tmp, "w") as f:
             json.dump(ev, f, indent=1, sort_keys=False)
-        os.replace(tmp, os.path.join(EVID, f"{self.prop}.json"))
+        os.replace(tmp, os.path.join(evid, f"{self.prop}.json"))
         if self.violations:
             code = 1
         elif self.inconclusive:
